@@ -325,6 +325,7 @@ struct WorldSim {
 		run::RunResult rr;
 		K.trace = trace;
 		setup();
+		{ size_t s0 = bw.served.size(); bw.warm_up(ctx, (int)plan.c("warm", 0)); if (bw.served.size() > s0) bw.served.resize(s0); }
 		for (size_t i = 0; i < plan.ops.size() && !K.failed() && !K.inconclusive; i++) exec(plan.ops[i]);
 		teardown();
 		rr.hash = K.hash; rr.violations = K.violations; rr.counters = K.counters; rr.sim_ms = K.elapsed_ms;
@@ -355,6 +356,7 @@ struct WorldEngine : run::Engine {
 		p.cfg["epoch"] = (int64_t)g.below(5);
 		p.cfg["epoch_ms"] = (int64_t)g.below(1000);
 		p.cfg["loglevel"] = g.chance(1, 6) ? 5 : 0;
+		p.cfg["warm"] = g.chance(1, 30) ? (int64_t)g.range(250, 258) : 0;
 		int n = tier ? (int)g.range(4, 24) : (int)g.range(1, 8);
 		auto env_args = [&](std::vector<int64_t> &a) {
 			a.push_back(g.chance(1, 2) ? 0 : (int64_t)g.below(B__COUNT));          // behaviour
